@@ -1085,6 +1085,17 @@ func (m *MapPollard) Verify(delHashes []Hash, proof Proof, remember bool) error 
 // This function is different from Verify() in that it's not safe for concurrent access.
 func (m *MapPollard) verify(delHashes []Hash, proof Proof, remember bool) error {
 	if TreeRows(m.NumLeaves) != m.TotalRows {
+		// Targets may be given in the minimal rows or in the allocated rows.
+		// A position that exists in neither must not be translated as that
+		// would turn it into another, existing position.
+		for _, target := range proof.Targets {
+			if !inForest(target, m.NumLeaves, TreeRows(m.NumLeaves)) &&
+				!inForest(target, m.NumLeaves, m.TotalRows) {
+
+				return fmt.Errorf("MapPollard.Verify fail. Position %d doesn't "+
+					"exist in an accumulator with %d leaves", target, m.NumLeaves)
+			}
+		}
 		proof.Targets = translatePositions(proof.Targets, m.TotalRows, TreeRows(m.NumLeaves))
 	}
 
